@@ -5,7 +5,7 @@
    (Properties/C06.v); the Lean side itself is checked by the tool run in lib/props/c34.py. *)
 From Coq Require Import ZArith List Bool.
 From V.Base Require Import Common.
-From V.Circ Require Import PrivateBatch.
+From V.Circ Require Import Field Core PrivateBatch PrivateBatchProofs.
 From V.Spec Require Import LeanPort.
 Import ListNotations.
 Open Scope Z_scope.
@@ -34,3 +34,16 @@ Theorem C34_port_reference : forall leaves,
                       | None => (0, zero4, 0)
                       end.
 Proof. reflexivity. Qed.
+
+(* the bridge: for ALL batches (not only the explored ones) the circuit's grouped exit slots, first-real
+   reference and nullifier ordering are the ported spec definitions *)
+Theorem C34_circuit_matches_spec : forall H,
+  (forall l, length (H l) = 4%nat /\ Forall canon (H l)) ->
+  forall leaves us, (1 <= length leaves <= 64)%nat -> Forall leaf_wf leaves -> length us = length leaves ->
+  forall post, rel H (private_batch leaves us) post <->
+               priv_compat leaves = true /\ post (priv_output H leaves us).
+Proof. exact private_batch_spec. Qed.
+
+Theorem C34_spec_conservation : forall leaves,
+  slotsTotal (groupExits (maskedChildPairs leaves)) = inputExitTotal leaves.
+Proof. exact conservation. Qed.
